@@ -104,6 +104,15 @@ Theorem specific_first_refuted :
 Proof. exact specific_first_refuted_exec. Qed.
 Print Assumptions specific_first_refuted.
 
+(* ... but the distance part of the single-step clause holds for the code's own sort without any hypothesis:
+   CPython's insertion keeps the major key (MRO distance) sorted even though the comparator is partial *)
+Theorem min_distance_first_executable :
+  forall c fuel o, adapt (env_of c) fuel = RAdapter [o] ->
+    forall o', In o' (e_offers (env_of c)) -> single_candidate (env_of c) o' = true ->
+      e_dist (env_of c) (e_src (env_of c)) (ofrom o) <= e_dist (env_of c) (e_src (env_of c)) (ofrom o').
+Proof. exact min_distance_first_exec. Qed.
+Print Assumptions min_distance_first_executable.
+
 (* the whole law (Law.v, all clauses, every entry point) holds of the model *)
 Theorem model_satisfies_law :
   forall E, order_perm E -> no_inversion E ->
